@@ -158,7 +158,9 @@ ExportLU ==
                               p |-> IF pc = "done" THEN p ELSE <<>>,
                               swaps |-> pcount - NN,
                               det |-> IF pc = "done" THEN DetB ELSE Zero,
-                              x |-> IF pc = "done" THEN [r \in Idx |-> SolveB(RHS)[r]] ELSE <<>>])>>)
+                              x |-> IF pc = "done" THEN [r \in Idx |-> SolveB(RHS)[r]] ELSE <<>>,
+                              \* inverse()[r][j]: column j solves A x = e_j
+                              inv |-> IF pc = "done" THEN [r \in Idx |-> [j \in Idx |-> InverseColB(j)[r]]] ELSE <<>>])>>)
 ReSetN2 == {-2, -1, 0, 1, 2}
 ReSetN3 == {-1, 0, 1}
 ReSetN3T == {-1, 0, 1, 2}
